@@ -90,10 +90,13 @@ def _strategy():
         family = None
         if draw(st.integers(0, 2)) == 0:
             G.add_weak_family(s, draw)
-        if draw(st.integers(0, 2)) == 0:
+        if draw(st.integers(0, 1)) == 0:
             # functions depending on constraints, tracer scopes, cross-module backlinks, diamonds ...
             from vp_harness.gen import families as F
-            fam = F.draw_family(draw, s['modules'])
+            if draw(st.integers(0, 2)) > 0:
+                fam = draw(st.sampled_from(F.STATIC))(draw, draw(st.sampled_from(sorted(s['modules']))))
+            else:
+                fam = F.draw_family(draw, s['modules'])
             s = F.add(s, fam['A'], draw)
             family = fam['name']
         variants = []
